@@ -101,9 +101,87 @@ def unsupported(draw, families=("rejected", "skipped")):
     return {"family": fam, "text": tpl.format(**names)}
 
 
+# ------------------------------------------------------------------ tables with extended column options (metamorphic use only)
+
+XOPTS = {
+    # name: (tokens, needs) ; roles: K = SQL keyword (re-cased by C05), V = echoed word, I identifier, L literal, N number
+    "auto_increment": [("AUTO_INCREMENT", "K")],
+    "autoincrement": [("AUTOINCREMENT", "K")],
+    "collate": [("COLLATE", "K"), ("utf8_bin", "I")],
+    "collate_q": [("COLLATE", "K"), ('"C"', "I")],
+    "comment": [("COMMENT", "K"), ("'cm x'", "L")],
+    "generated_stored": [("GENERATED", "K"), ("ALWAYS", "K"), ("AS", "K"), ("(", "P"), ("a1", "I"), ("*", "O"), ("2", "N"), (")", "P"), ("STORED", "K")],
+    "generated": [("GENERATED", "K"), ("ALWAYS", "K"), ("AS", "K"), ("(", "P"), ("a1", "I"), ("+", "O"), ("1", "N"), (")", "P")],
+    "generated_identity": [("GENERATED", "K"), ("ALWAYS", "K"), ("AS", "K"), ("IDENTITY", "V")],
+    "generated_by_default": [("GENERATED", "K"), ("BY", "K"), ("DEFAULT", "V"), ("AS", "V"), ("IDENTITY", "V")],
+    "encode": [("ENCODE", "K"), ("zstd", "V")],
+    "encrypt": [("ENCRYPT", "K")],
+    "on_update": [("ON", "K"), ("UPDATE", "K"), ("CURRENT_TIMESTAMP", "V")],
+    "identity": [("IDENTITY", "K"), ("(", "P"), ("1", "N"), (",", "P"), ("1", "N"), (")", "P")],
+    "character_set": [("CHARACTER", "K"), ("SET", "K"), ("utf8", "V")],
+    "next_value_for": [("DEFAULT", "K"), ("NEXT", "K"), ("VALUE", "K"), ("FOR", "K"), ("sq1", "I")],
+    "unsigned": [("UNSIGNED", "V")],
+    "with_tag": [("WITH", "K"), ("TAG", "K"), ("(", "P"), ("k1='v1'", "L"), (")", "P")],
+    "constraint_nn": [("CONSTRAINT", "K"), ("nn1", "I"), ("NOT", "K"), ("NULL", "K")],
+    "default_paren": [("DEFAULT", "K"), ("(", "P"), ("1", "N"), (")", "P")],
+    "not_null": [("NOT", "K"), ("NULL", "K")],
+    "null": [("NULL", "K")],
+    "check": [("CHECK", "K"), ("(", "P"), ("a1", "I"), (">", "O"), ("0", "N"), (")", "P")],
+    "default_ts": [("DEFAULT", "K"), ("CURRENT_TIMESTAMP", "V")],
+    "unique": [("UNIQUE", "K")],
+}
+XOPT_NAMES = sorted(XOPTS)
+# options that cannot follow / precede each other in one column (mutually exclusive families)
+XOPT_FAMILY = {"auto_increment": "ai", "autoincrement": "ai", "collate": "co", "collate_q": "co", "generated_stored": "ge", "generated": "ge",
+               "generated_identity": "ge", "generated_by_default": "ge", "identity": "ge", "next_value_for": "de", "default_paren": "de",
+               "default_ts": "de", "not_null": "nu", "null": "nu", "constraint_nn": "nu"}
+
+
+@st.composite
+def xtable(draw):
+    n = draw(st.integers(1, 4))
+    names = ["a1"] + draw(gen.distinct_names(n, avoid=["a1", "sq1", "nn1"]))
+    cols = [{"name": "a1", "type": "int", "size": None, "x": []}]
+    for nm in names[1:]:
+        t, size = draw(gen.type_and_size(allow_random_word=False))
+        k = draw(st.integers(0, 3))
+        chosen, fams = [], set()
+        for o in draw(st.permutations(XOPT_NAMES))[:6]:
+            f = XOPT_FAMILY.get(o, o)
+            if f in fams or len(chosen) >= k:
+                continue
+            fams.add(f)
+            chosen.append(o)
+        # UNSIGNED, IDENTITY (n, m) and CHARACTER SET x belong to the type: the grammar accepts them only directly after it
+        chosen.sort(key=lambda o: {"unsigned": 0, "identity": 1, "character_set": 1}.get(o, 2))
+        cols.append({"name": nm, "type": t, "size": size, "x": chosen})
+    alters = []
+    for j in range(draw(st.integers(0, 2))):
+        alters.append({"name": "xa%d" % j, "type": draw(st.sampled_from(["text", "varchar", "int"])), "x": draw(st.sampled_from([[], ["collate"], ["comment"], ["default_ts"], ["collate_q"]]))})
+    return {"schema": draw(st.one_of(st.none(), gen.plain_ident())), "name": draw(gen.plain_ident(min_len=2)), "cols": cols, "alters": alters}
+
+
+def xtable_statements(c, index):
+    name = "%s_x%d" % (c["name"], index)
+    full = (c["schema"] + "." if c["schema"] else "") + name
+    items = []
+    for col in c["cols"]:
+        toks = [I(col["name"]), T(col["type"])] + gen.size_tokens(col["size"])
+        for o in col["x"]:
+            toks += [tuple(t) for t in XOPTS[o]]
+        items.append(toks)
+    out = [K("CREATE", "TABLE") + [I(full)] + plist(items) + [END]]
+    for a in c["alters"]:
+        toks = K("ALTER", "TABLE") + [I(full)] + K("ADD") + [I(a["name"]), T(a["type"])]
+        for o in a["x"]:
+            toks += [tuple(t) for t in XOPTS[o]]
+        out.append(toks + [END])
+    return out
+
+
 # ------------------------------------------------------------------ blocks
 
-BLOCK_KINDS = ["tables", "ctable", "alter", "typed", "seq", "decl", "set", "drop", "like", "dtable"]
+BLOCK_KINDS = ["tables", "ctable", "alter", "typed", "seq", "decl", "set", "drop", "like", "dtable", "xtable"]
 
 
 @st.composite
@@ -131,6 +209,8 @@ def block(draw, kinds=BLOCK_KINDS, small=True):
         c = {"schema": draw(st.one_of(st.none(), gen.plain_ident())), "name": draw(gen.plain_ident(min_len=2))}
     elif k == "dtable":
         c = draw(_c11().case_strategy(3))
+    elif k == "xtable":
+        c = draw(xtable())
     else:  # like
         c = {"schema": draw(st.one_of(st.none(), gen.plain_ident())), "name": draw(gen.plain_ident(min_len=2)),
              "src": draw(gen.plain_ident(min_len=2)), "paren": draw(st.booleans())}
@@ -159,6 +239,8 @@ def statements(b, index=0):
         return [c17.seq_tokens(s) for s in c["seqs"]]
     if k == "decl":
         return c18.PROP.statements(c)
+    if k == "xtable":
+        return xtable_statements(c, index)
     if k == "dtable":
         return [_c11().merge_glue(_c11().PROP.statement(c)[0])]
     if k == "set":
@@ -180,7 +262,7 @@ def entity_kinds(b):
     k, c = b["k"], b["c"]
     if k == "tables":
         return ["tables"] * len(c["tables"])
-    if k in ("ctable", "typed", "drop", "like", "dtable"):
+    if k in ("ctable", "typed", "drop", "like", "dtable", "xtable"):
         return ["tables"]
     if k == "alter":
         return ["tables"] * len(c["tables"])
